@@ -543,4 +543,14 @@ def select_polarity(repo: Repo) -> RuleRun:
 
 select_polarity.rule_id = "C10.SELECT-POLARITY"
 
-RULES = [face_permutations, edge_map_rule, side_addressing, select_polarity]
+def arguments_untouched(repo: Repo) -> RuleRun:
+    """A projection / patch / edge given for one corner pair or side stays on that one: no function keeps and modifies a
+    label list (or any other object) the caller handed in, so two addresses never share their data behind the caller's back."""
+    from ..alias import argument_mutation_rule
+
+    return argument_mutation_rule(repo, PROP, "C10.ARGUMENTS-UNTOUCHED")
+
+
+arguments_untouched.rule_id = "C10.ARGUMENTS-UNTOUCHED"
+
+RULES = [face_permutations, edge_map_rule, side_addressing, select_polarity, arguments_untouched]
